@@ -39,6 +39,18 @@ func writeCE(v *Violation, path string) error {
 				}
 			}
 			ce[fmt.Sprintf("%s[]#%d", nd.Name, k)] = vals
+			if nd.Shape == 20 {
+				// 20 attacker-chosen bytes that the model made equal to an honest key's address: natively the address of
+				// abstract key i is that of a real secp256k1 key, so the assignment refers to the key instead of the model bytes
+				if m, ok := v.Model[nd.Term.name]; ok {
+					for i := 0; i < 32; i++ {
+						if a, ok := v.Model[fmt.Sprintf("@addr:%d", i)]; ok && a.Cmp(m) == 0 {
+							ce[fmt.Sprintf("%s[]#%d@addr", nd.Name, k)] = []uint64{uint64(i)}
+							break
+						}
+					}
+				}
+			}
 		case "now":
 			// monotonic nanoseconds of the k-th clock reading
 			var mono uint64
